@@ -38,7 +38,7 @@ def generate(rng, tier):
         "p_adapters": 1.0, "require_named": True, "force_info": True, "upper_only": True, "shorten_before_adapter": False,
         "p_demux": 0.05, "p_revcomp": 0.2, "p_pair_adapters": 0.12, "p_filters": 0.3, "p_rename": 0.1,
         "p_minimal_report": 0.0, "times": (1, 3), "p_stdout": 0.0, "n_records": (0, 40), "revcomp_single_only": True,
-        "p_same_name": 0.08, "same_name_without_demux": True,
+        "p_same_name": 0.08, "same_name_without_demux": True, "p_same_r2": 0.08,
     })
 
 
